@@ -533,14 +533,14 @@ namespace
     std::unique_ptr <value_loclist_op>
     next () override
     {
-      size_t idx = m_i++;
-      if (idx < m_n)
+      size_t pos = m_i++;
+      if (pos < m_n)
 	{
-	  if (! m_forward)
-	    idx = m_n - 1 - idx;
+	  // relem walks backwards, but numbers what it yields from zero.
+	  size_t idx = m_forward ? pos : m_n - 1 - pos;
 	  return std::make_unique <value_loclist_op>
 	    (m_value->get_dwctx (), m_value->get_attr (),
-	     m_value->get_expr () + idx, idx);
+	     m_value->get_expr () + idx, pos);
 	}
       else
 	return nullptr;
